@@ -123,7 +123,7 @@ func L0(rc *RC, only func(fn string) bool) {
 			continue
 		}
 		pos := rc.P.Pos(fi.Decl.Pos())
-		c := ir.NewCanon(rc.P.Fset, fi.Pkg.TypesInfo, ir.Options{ParamNames: true, KeepNames: true, NoSubst: false})
+		c := ir.NewCanon(rc.P.Fset, fi.Pkg.TypesInfo, ir.Options{ParamNames: true, KeepNames: true, NoSubst: false, DeclOf: rc.DeclOf})
 		f, ok := c.BoolResult(fi.Decl, e.Target)
 		key := e.Func
 		if e.Target != "" {
@@ -141,16 +141,32 @@ func L0(rc *RC, only func(fn string) bool) {
 				break
 			}
 		}
+		// atoms outside the table's vocabulary: a call of a helper introduced since the reviewed
+		// tree cannot be followed (not decided); any other atom - another predicate of the
+		// tensor, a field test - is a free variable of the truth table: the definition must
+		// agree with the table whatever its value
+		var extra []string
 		if unknown != "" {
-			rc.S.Undec("L0", key, pos, "unrecognised atom "+unknown+" in "+f.String())
-			continue
+			if h := rc.NewHelperIn(f.Atoms()...); h != "" {
+				rc.S.Undec("L0", key, pos, "the definition calls "+h+"(), a helper introduced since the reviewed tree that could not be inlined: "+f.String())
+				continue
+			}
+			for _, a := range f.Atoms() {
+				if _, ok := e.Atoms[a]; !ok {
+					extra = append(extra, a)
+				}
+			}
+			if len(extra) > 6 {
+				rc.S.Undec("L0", key, pos, "too many atoms outside the table's vocabulary in "+f.String())
+				continue
+			}
 		}
 		// truth table
 		n := len(e.Vars)
 		var counter string
 		var failing []string
 		rows := 0
-		for m := 0; m < 1<<n; m++ {
+		for m := 0; m < 1<<(n+len(extra)); m++ {
 			v := map[string]bool{}
 			for i, name := range e.Vars {
 				v[name] = m&(1<<i) != 0
@@ -172,6 +188,9 @@ func L0(rc *RC, only func(fn string) bool) {
 				}
 				env[a] = val != neg
 			}
+			for i, a := range extra {
+				env[a] = m&(1<<(n+i)) != 0
+			}
 			got, want := f.Eval(env), e.Spec(v)
 			bad := got != want
 			if !e.Equiv {
@@ -186,6 +205,9 @@ func L0(rc *RC, only func(fn string) bool) {
 					parts = append(parts, fmt.Sprintf("%s=%v", name, v[name]))
 				}
 				sort.Strings(parts)
+				for i, a := range extra {
+					parts = append(parts, fmt.Sprintf("[%s]=%v", a, m&(1<<(n+i)) != 0))
+				}
 				counter = fmt.Sprintf("for %s the source gives %v, the table %v", strings.Join(parts, " "), got, want)
 			}
 		}
